@@ -22,16 +22,19 @@ func init() { register("C10", runC10) }
 
 // c10Case is the self-contained replay format of both streams.
 type c10Case struct {
-	Kind    string    `json:"kind"`    // "interactive" | "web"
-	Profile string    `json:"profile"` // hex of the uncompressed serialised profile
-	Lines   []c10Line `json:"lines,omitempty"`
-	Probes  []int     `json:"probes,omitempty"`  // indices of lines compared with a fresh reference session
-	Desugar []int     `json:"desugar,omitempty"` // indices of commands compared with their desugared form
-	Request string    `json:"request,omitempty"` // web: the probed request r
-	Others  []string  `json:"others,omitempty"`  // web: requests served before / concurrently
-	Flags   map[string]string `json:"flags,omitempty"` // web: process options without URL parameter (command-line flags)
-	Phase   string    `json:"phase,omitempty"`   // web: "seq" | "conc" | "" (both)
-	Note    string    `json:"note,omitempty"`
+	Kind     string              `json:"kind"`    // "interactive" | "web"
+	Profile  string              `json:"profile"` // hex of the uncompressed serialised profile
+	Lines    []c10Line           `json:"lines,omitempty"`
+	Probes   []int               `json:"probes,omitempty"`   // indices of lines compared with a fresh reference session
+	Desugar  []int               `json:"desugar,omitempty"`  // indices of commands compared with their desugared form
+	Request  string              `json:"request,omitempty"`  // web: the probed request r
+	Others   []string            `json:"others,omitempty"`   // web: requests served before / concurrently
+	Profile2 string              `json:"profile2,omitempty"` // web: a second (small) and a third (large) profile for
+	Profile3 string              `json:"profile3,omitempty"` //      sessions living in the same process
+	Refs     map[string][]string `json:"refs,omitempty"`     // web: fresh-process references (filled in by the parent)
+	Flags    map[string]string   `json:"flags,omitempty"`    // web: process options without URL parameter (command-line flags)
+	Phase    string              `json:"phase,omitempty"`    // web: "seq" | "conc" | "" (both)
+	Note     string              `json:"note,omitempty"`
 }
 
 // ---- the model's view of a script ----
@@ -435,7 +438,7 @@ func c10RunInteractive(pprofBin string, cs *c10Case, m *c10Model, seen *sync.Map
 			got, want := main.Segs[i], ref.Segs[len(ref.Segs)-1]
 			if got.key() != want.key() && c10Confirm(pprofBin, dir, fmt.Sprintf("cd%d", k), texts[:i+1], outs[:i+1], script, got, want, out, cs.Lines[i].Text, "C10/model/args-desugar/"+c10CmdName(cs.Lines[i].Text)) {
 				out.Mismatches = append(out.Mismatches, c10Mismatch{Sig: "C10/model/args-desugar/" + c10CmdName(cs.Lines[i].Text),
-					What: fmt.Sprintf("line %d %q: differs from %q — %s", i, cs.Lines[i].Text, strings.Join(script[len(script)-len(m.Lines[i].Diff)-1:], " ; "), c10SegDiff(got, want)),
+					What:   fmt.Sprintf("line %d %q: differs from %q — %s", i, cs.Lines[i].Text, strings.Join(script[len(script)-len(m.Lines[i].Diff)-1:], " ; "), c10SegDiff(got, want)),
 					Broken: "correspondence Session.parseCommandLine ~ parseCommandLine(): what the arguments of a command mean", Probe: i})
 			}
 		}
@@ -449,6 +452,7 @@ func c10RunInteractive(pprofBin string, cs *c10Case, m *c10Model, seen *sync.Map
 //  1. equal after erasing order (token bags) ⇒ dismissed;
 //  2. the fresh reference is run 5 more times and must give the same observation every time;
 //  3. the session with the history is run 5 more times and must give ITS observation every time.
+//
 // Any variation on either side dismisses the difference (counted under C08-… in the distribution): a leak
 // is then still caught through the deterministic commands, which are the large majority.
 func c10Confirm(pprofBin, dir, tag string, mainScript, mainOuts, refScript []string, got, want c10Seg, out *c10Outcome, line, sig string) bool {
@@ -737,6 +741,9 @@ func runC10(c *Ctx) {
 		}
 		b, _ := c10WriteU(p)
 		cs := &c10Case{Kind: "web", Profile: hex.EncodeToString(b), Request: r.c10WebRequest(c10Types(p)), Flags: r.c10WebFlags()}
+		b2, _ := c10WriteU(c10GenProfileSized(r, 3+r.Intn(4), 3))
+		b3, _ := c10WriteU(c10GenProfileSized(r, 60+r.Intn(200), 10))
+		cs.Profile2, cs.Profile3 = hex.EncodeToString(b2), hex.EncodeToString(b3)
 		for k, no := 0, 3+r.Intn(6); k < no; k++ {
 			cs.Others = append(cs.Others, r.c10WebRequest(c10Types(p)))
 		}
@@ -777,14 +784,28 @@ type c10WebOut struct {
 // c10WebRun: the sequential and the concurrent phase each in a child process of their own, so that a
 // crash of the concurrent phase (fatal error: concurrent map writes …) does not hide the sequential verdict.
 func c10WebRun(c *Ctx, cs *c10Case) []c10WebOut {
-	phases := []string{"seq", "conc", "stall"}
-	if cs.Phase != "" {
+	phases := []string{"seq", "conc", "stall", "multi"}
+	if cs.Phase != "" && cs.Phase != "ref" {
 		phases = []string{cs.Phase}
 	}
-	var out []c10WebOut
+	// the references: a process that serves nothing but the probed requests (recomputed for every run,
+	// also when a replay file carries the references of the run that wrote it)
+	t := *cs
+	t.Phase, t.Refs = "ref", nil
+	rr, re := c10WebChild(c, &t)
+	out := []c10WebOut{{"ref", rr, re}}
+	if re != "" {
+		return out
+	}
+	refs := map[string][]string{}
+	for _, n := range rr.Notes {
+		if f := strings.Split(n, "\t"); len(f) == 3 && f[0] == "ref" {
+			refs[f[1]] = append(refs[f[1]], f[2])
+		}
+	}
 	for _, ph := range phases {
 		t := *cs
-		t.Phase = ph
+		t.Phase, t.Refs = ph, refs
 		r, e := c10WebChild(c, &t)
 		out = append(out, c10WebOut{ph, r, e})
 	}
